@@ -19,6 +19,6 @@ one() {
 }
 for p in "$DIR"/*.diff; do
   one "$p" &
-  while [ $(jobs -r | wc -l) -ge 4 ]; do sleep 1; done
+  while [ $(jobs -r | wc -l) -ge 6 ]; do sleep 1; done
 done
 wait
